@@ -49,7 +49,35 @@ def run(ctx, out):
             continue
         cfg = G.default_cfg(timeout=rng.choice([0, 1, 15, 253, 254, 255]))
         cases.append((cfg, ["new", "readcard"], {"06c0": [r]}, None, None))
+    # several presentations on the same client: each result is a function of THAT presentation's data only
+    outcomes = [[P.status(result_code=0, tlv={"uuid": "04a1b2c3", "subs": []})], [P.status(result_code=0, tlv={"uuid": "0102030405060708", "subs": []})],
+                [P.status(result_code=0, tlv={"uuid": None, "subs": [sub_with]})], [P.abort(0x6c)], [P.abort(0x64)], [P.status(result_code=0)],
+                [P.intermediate(), P.status(result_code=0, tlv={"uuid": None, "subs": []})]]
+    for a1 in outcomes:
+        for a2 in outcomes:
+            cases.append((G.default_cfg(), ["new", "readcard", "readcard"], {"06c0": [a1, a2]}, None, None))
+    for _ in range(40):
+        seq = [rng.choice(outcomes) for _ in range(rng.randint(3, 5))]
+        cases.append((G.default_cfg(), ["new"] + ["readcard"] * len(seq), {"06c0": seq}, None, None))
     ops, impl = run_histories(ctx, out, cases, "read_card")
+    # a card is read; at the next presentation the terminal reports NOTHING final on any of the 20 attempts (an intermediate status,
+    # then silence): no status data, hence no card — the earlier card must not be reported again (implementation = model, and an
+    # explicit oracle on the result)
+    stale_ops = []
+    for first in outcomes[:3]:
+        for t in (15, 0):
+            cfg = G.default_cfg(timeout=t)
+            q = {"06c0": [first] + [[P.intermediate()]] * 20}
+            stale_ops.append(G.op_line(cfg, ["new", "readcard", "readcard"], G.script_str(cfg, q)))
+    simpl, smodel = ctx.pair(stale_ops)
+    out.compare("client(history) nothing reported", stale_ops, simpl, smodel)
+    out.evaluations += len(stale_ops)
+    for o, r in zip(stale_ops, simpl):
+        out.nontrivial.add(o)
+        res = r.split(" || ")[0].split(" | ")
+        if len(res) != 3 or not res[2].startswith("err "):
+            out.oracle_failures.append({"op": o, "observed": r[:300], "expected": "… | err …", "key": o[:300],
+                                        "what": "read_card reports a card although the terminal reported no status information for this presentation"})
     # a slow but talking terminal: 3 virtual seconds before every packet, 7..30 intermediate statuses before the card data / the abort, so
     # the final reply arrives long after read_card_timeout + 2 s although every single gap is far below it (implementation vs specification)
     slow = []
@@ -68,6 +96,8 @@ def run(ctx, out):
     # determinism: identical for every presentation of the same card (implementation alone)
     seen = {}
     for o, r in zip(ops, impl):
+        if "; new readcard ;" not in o:
+            continue          # histories of several presentations are judged against the specification above
         key = o.split("r:06c0=")[1].split("+")[-1] if "r:06c0=" in o else None
         res = r.split(" | ")[1].split("@")[0] if " | " in r else r
         if key in seen and seen[key] != res:
@@ -75,5 +105,5 @@ def run(ctx, out):
         seen[key] = res
     out.rule = ("read_card against status-information replies: UID absent / empty / 1..20 bytes (random, all-zero, zero runs of every length before the last byte, 000000-prefixed), application lists absent / with / without application ids, "
                 "0..3 (and in a sample 19, 20, 21, 40, 64) preceding intermediate statuses; all 256 abort codes; result must equal the specification (bank iff the first listed application carries an id; otherwise upper-case hex UID, last 14 digits, one leading 000000 dropped; "
-                "6C => no card; other abort => error) and be identical for identical status data. implementation = model = specification; additionally a slow terminal (3 s before every packet, 7..30 intermediate statuses, time-outs 5/15/255 s): implementation = specification")
+                "6C => no card; other abort => error) and be identical for identical status data; 49 + 40 histories of several presentations on one client (each result from its own data), a presentation for which nothing final is reported after an earlier card. implementation = model = specification; additionally a slow terminal (3 s before every packet, 7..30 intermediate statuses, time-outs 5/15/255 s): implementation = specification")
     out.samples = [ops[300][:400], {"op": ops[-1][:200], "impl": impl[-1][:300]}]
